@@ -2,6 +2,7 @@ package props
 
 import (
 	"fmt"
+	"sort"
 	"go/types"
 	"strings"
 
@@ -27,9 +28,128 @@ func isConnReceive(c ssa.CallInstruction) bool {
 	return strings.HasPrefix(name, "Receive")
 }
 
+// c16ctx holds the summaries of helper functions the garbler roles delegate label decisions to.  A module
+// function is a *deciding helper* when, with its label-typed parameters taken as peer data, none of its
+// non-error results depends on them except through BitFromLabel / Label.Equal (or another deciding
+// helper), and it contains at least one such test.  A call of a deciding helper is then a declassifier in
+// its caller exactly like a direct call of BitFromLabel, provided its other arguments are clean.
+type c16ctx struct {
+	p    *load.Program
+	memo map[*ssa.Function]*c16sum
+	used map[*ssa.Function]bool
+}
+
+type c16sum struct {
+	clean bool
+	nsan  int
+	ta    *flow.Taint
+}
+
+func c16base(callee *ssa.Function) bool {
+	if callee == nil {
+		return false
+	}
+	s := callee.String()
+	return s == load.Module+"/circuit.BitFromLabel" || s == "("+load.Module+"/ot.Label).Equal"
+}
+
+func labelTyped(t types.Type) bool { return strings.Contains(t.String(), "/ot.Label") }
+
+func c16sources(ins ssa.Instruction) []ssa.Value {
+	c, ok := ins.(ssa.CallInstruction)
+	if !ok || !isConnReceive(c) {
+		return nil
+	}
+	var out []ssa.Value
+	if v, ok := ins.(ssa.Value); ok {
+		out = append(out, v)
+	}
+	for _, a := range c.Common().Args {
+		if b := flow.BaseOf(a); b != nil {
+			out = append(out, b)
+		}
+	}
+	return out
+}
+
+func (cx *c16ctx) summary(h *ssa.Function, depth int) *c16sum {
+	if s, ok := cx.memo[h]; ok {
+		return s
+	}
+	s := &c16sum{}
+	cx.memo[h] = s // recursion: not a helper while being computed
+	if depth > 3 || h.Blocks == nil || !load.InModule(h) {
+		return s
+	}
+	var seed []ssa.Value
+	for _, prm := range h.Params {
+		if labelTyped(prm.Type()) {
+			seed = append(seed, prm)
+		}
+	}
+	if len(seed) == 0 {
+		return s
+	}
+	ta, nsan := cx.taint(h, seed, depth+1, true)
+	s.ta, s.nsan = ta, nsan
+	s.clean = nsan > 0 && len(ta.TaintedReturns()) == 0
+	return s
+}
+
+// taint runs the analysis of fn; nsan counts the declassifying calls (direct or through deciding helpers).
+func (cx *c16ctx) taint(fn *ssa.Function, seed []ssa.Value, depth int, cleanLen bool) (*flow.Taint, int) {
+	ta := &flow.Taint{Fn: fn, Seed: seed, CleanLen: cleanLen,
+		KeepClean: func(t types.Type) bool { return t.String() == "error" },
+		Source:    c16sources,
+	}
+	helper := func(c ssa.CallInstruction) bool {
+		callee := c.Common().StaticCallee()
+		if callee == nil || c16base(callee) || callee == fn {
+			return false
+		}
+		hasLabel := false
+		for _, a := range c.Common().Args {
+			if labelTyped(a.Type()) {
+				hasLabel = true
+			}
+		}
+		if !hasLabel || !cx.summary(callee, depth).clean {
+			return false
+		}
+		// the other arguments must be clean: the summary vouches for the label contents only
+		for _, a := range c.Common().Args {
+			if !labelTyped(a.Type()) && ta.T[a] {
+				return false
+			}
+		}
+		return true
+	}
+	ta.Sanitizer = func(c ssa.CallInstruction) bool {
+		if c16base(c.Common().StaticCallee()) {
+			return true
+		}
+		if helper(c) {
+			cx.used[c.Common().StaticCallee()] = true
+			return true
+		}
+		return false
+	}
+	ta.Run()
+	nsan := 0
+	for _, b := range fn.Blocks {
+		for _, ins := range b.Instrs {
+			if c, ok := ins.(ssa.CallInstruction); ok && ta.Sanitizer(c) {
+				nsan++
+			}
+		}
+	}
+	return ta, nsan
+}
+
 // C16 decides that received data reaches the garbler's result only through full-label equality.
 func C16(p *load.Program, run *report.Run) {
 	run.Rule("result-from-equality", "in the garbler roles, data received from the peer influences the returned values only as the compared operand of BitFromLabel / Label.Equal")
+	cx := &c16ctx{p: p, memo: map[*ssa.Function]*c16sum{}, used: map[*ssa.Function]bool{}}
 	type ref struct{ pkg, typ, name string }
 	for _, r := range []ref{{"circuit", "", "Garbler"}, {"compiler/ssa", "Program", "Stream"}} {
 		var f *ssa.Function
@@ -45,47 +165,15 @@ func C16(p *load.Program, run *report.Run) {
 			run.Undecided("result-from-equality", key, "", err.Error())
 			continue
 		}
-		nrecv, nsan := 0, 0
-		ta := &flow.Taint{Fn: f,
-			KeepClean: func(t types.Type) bool { return t.String() == "error" },
-			Source: func(ins ssa.Instruction) []ssa.Value {
-				c, ok := ins.(ssa.CallInstruction)
-				if !ok || !isConnReceive(c) {
-					return nil
-				}
-				var out []ssa.Value
-				if v, ok := ins.(ssa.Value); ok {
-					out = append(out, v)
-				}
-				for _, a := range c.Common().Args {
-					if al, ok := a.(*ssa.Alloc); ok {
-						out = append(out, al)
-					}
-				}
-				return out
-			},
-			Sanitizer: func(c ssa.CallInstruction) bool {
-				callee := c.Common().StaticCallee()
-				if callee == nil {
-					return false
-				}
-				s := callee.String()
-				return s == load.Module+"/circuit.BitFromLabel" || s == "("+load.Module+"/ot.Label).Equal"
-			},
-		}
+		nrecv := 0
 		for _, b := range f.Blocks {
 			for _, ins := range b.Instrs {
-				if c, ok := ins.(ssa.CallInstruction); ok {
-					if isConnReceive(c) {
-						nrecv++
-					}
-					if ta.Sanitizer(c) {
-						nsan++
-					}
+				if c, ok := ins.(ssa.CallInstruction); ok && isConnReceive(c) {
+					nrecv++
 				}
 			}
 		}
-		ta.Run()
+		ta, nsan := cx.taint(f, nil, 0, false)
 		run.Count("receive-sites", nrecv)
 		run.Count("equality-sites", nsan)
 		bad := ta.TaintedReturns()
@@ -108,7 +196,7 @@ func C16(p *load.Program, run *report.Run) {
 			run.Violate("result-from-equality", key, p.Rel(r.Pos()), "a returned value depends on received data outside a full-label equality", why)
 		}
 	}
-	c16branches(p, run)
+	c16branches(p, run, cx)
 	run.Floor("receive-sites", 4)
 	run.Floor("equality-sites", 2)
 }
@@ -262,8 +350,14 @@ func C15(p *load.Program, run *report.Run) {
 // both sides can still succeed, the peer's bytes steer which success is
 // returned — e.g. a loop that decodes as many result labels as a received count
 // says returns a truncated value without an error.
-func c16branches(p *load.Program, run *report.Run) {
-	run.Rule("received-data-steers-only-to-errors", "in the garbler roles every branch on a value derived from received data, other than the verdict of BitFromLabel / Label.Equal, has a side from which no success return is reachable (it validates, it does not choose between successes)")
+func c16branches(p *load.Program, run *report.Run, cx *c16ctx) {
+	run.Rule("received-data-steers-only-to-errors", "in the garbler roles, and in the helper functions they hand received labels to, every branch on a value derived from received data, other than the verdict of BitFromLabel / Label.Equal, has a side from which no success return is reachable (it validates, it does not choose between successes)")
+	type unit struct {
+		f   *ssa.Function
+		key string
+		ta  *flow.Taint
+	}
+	var units []unit
 	type ref struct{ pkg, typ, name string }
 	for _, r := range []ref{{"circuit", "", "Garbler"}, {"compiler/ssa", "Program", "Stream"}} {
 		var f *ssa.Function
@@ -278,33 +372,22 @@ func c16branches(p *load.Program, run *report.Run) {
 			run.Undecided("received-data-steers-only-to-errors", key, "", err.Error())
 			continue
 		}
-		ta := &flow.Taint{Fn: f,
-			Source: func(ins ssa.Instruction) []ssa.Value {
-				c, ok := ins.(ssa.CallInstruction)
-				if !ok || !isConnReceive(c) {
-					return nil
-				}
-				var out []ssa.Value
-				if v, ok := ins.(ssa.Value); ok {
-					out = append(out, v)
-				}
-				for _, a := range c.Common().Args {
-					if al, ok := a.(*ssa.Alloc); ok {
-						out = append(out, al)
-					}
-				}
-				return out
-			},
-			Sanitizer: func(c ssa.CallInstruction) bool {
-				callee := c.Common().StaticCallee()
-				if callee == nil {
-					return false
-				}
-				s := callee.String()
-				return s == load.Module+"/circuit.BitFromLabel" || s == "("+load.Module+"/ot.Label).Equal"
-			},
+		ta, _ := cx.taint(f, nil, 0, false)
+		units = append(units, unit{f, key, ta})
+	}
+	var helpers []*ssa.Function
+	for h := range cx.used {
+		helpers = append(helpers, h)
+	}
+	sort.Slice(helpers, func(i, j int) bool { return helpers[i].Pos() < helpers[j].Pos() })
+	for _, h := range helpers {
+		if s := cx.memo[h]; s != nil && s.ta != nil {
+			units = append(units, unit{h, strings.ReplaceAll(h.RelString(nil), load.Module+"/", ""), s.ta})
 		}
-		ta.Run()
+	}
+	run.Count("label-helpers", len(helpers))
+	for _, u := range units {
+		f, key, ta := u.f, u.key, u.ta
 		// blocks from which a success return is reachable
 		succ := map[*ssa.BasicBlock]bool{}
 		for _, b := range successBlocks(f) {
